@@ -653,3 +653,38 @@ Proof.
   destruct (iter n st (x, false)) as [xf [|]]; reflexivity.
 Qed.
 End GenSD.
+
+(* ======================================================== DCA and proximal DCA *)
+Section GenDCA.
+Variables (gradfcc gradg proxf : Rvec -> Rvec) (gamma : R) (junk : string -> Rvec).
+Definition dca_I : interp :=
+  mk_I [("gamma", gamma)] [("f.convex_conj.gradient", gradfcc); ("g.gradient", gradg); ("f.proximal(gamma)", proxf)]
+       [] [] junk.
+Definition enc1 (x : Rvec) : list Rvec := [x].
+Lemma gen_dca_body x log :
+  body_step dca_I dca_body (mk_hst env_x (enc1 x) log)
+  = Some (mk_hst env_x (enc1 (dca_step gradfcc gradg x)) (log ++ [dca_step gradfcc gradg x])).
+Proof. symexec. Qed.
+Lemma gen_prox_dca_body x log :
+  body_step dca_I prox_dca_body (mk_hst env_x (enc1 x) log)
+  = Some (mk_hst env_x (enc1 (prox_dca_step gradg proxf gamma x)) (log ++ [prox_dca_step gradg proxf gamma x])).
+Proof. symexec. Qed.
+Lemma gen_dca_run n x :
+  run_prog dca_I dca_pre dca_body n (mk_hst env_x [x] [])
+  = Some (mk_hst env_x [iter n (dca_step gradfcc gradg) x] (trace (fun x => x) n (dca_step gradfcc gradg) x)).
+Proof.
+  unfold run_prog. replace (option_map canon (exec dca_I dca_pre (mk_hst env_x [x] []))) with (Some (mk_hst env_x (enc1 x) []))
+    by (symmetry; symexec).
+  cbn [obind]. rewrite (sim_iter env_x enc1 (fun x => [x]) _ _ gen_dca_body), traceL_single. reflexivity.
+Qed.
+Lemma gen_prox_dca_run n x :
+  run_prog dca_I prox_dca_pre prox_dca_body n (mk_hst env_x [x] [])
+  = Some (mk_hst env_x [iter n (prox_dca_step gradg proxf gamma) x]
+            (trace (fun x => x) n (prox_dca_step gradg proxf gamma) x)).
+Proof.
+  unfold run_prog.
+  replace (option_map canon (exec dca_I prox_dca_pre (mk_hst env_x [x] []))) with (Some (mk_hst env_x (enc1 x) []))
+    by (symmetry; symexec).
+  cbn [obind]. rewrite (sim_iter env_x enc1 (fun x => [x]) _ _ gen_prox_dca_body), traceL_single. reflexivity.
+Qed.
+End GenDCA.
